@@ -106,6 +106,12 @@ SyntaxVisitor::Action DeclarationBinder::visit_AtSpecifiers_COMMON(
         diagReporter_.TypeSpecifierMissingDefaultsToInt(node->lastToken());
         pushType(makeType<BasicType>(BasicTypeKind::Int_S));
     }
+    else if (F_.inImplicitDoubleTySpec_
+                && tys_.top()->kind() == TypeKind::Basic
+                && tys_.top()->asBasicType()->kind() == BasicTypeKind::LongDoubleComplex) {
+        // `long _Complex' without `double' isn't a type (only a lone `_Complex' implies `double').
+        diagReporter_.InvalidType(node->lastToken());
+    }
 
     for (auto specIt = node->specifiers(); specIt; specIt = specIt->next) {
         if (specIt->value->asTypeQualifier())
@@ -336,6 +342,14 @@ SyntaxVisitor::Action DeclarationBinder::visitBasicTypeSpecifier(const BasicType
             case SyntaxKind::Keyword_ExtGNU___complex__:
                 switch (curBasicTyK) {
                     case BasicTypeKind::Long_S:
+                        // A `double' must still follow (checked once all specifiers are seen).
+                        if (F_.inImplicitIntTySpec_
+                                && !F_.inExplicitSignedOrUnsignedTySpec_) {
+                            F_.inImplicitDoubleTySpec_ = true;
+                            curBasicTy->resetBasicTypeKind(BasicTypeKind::LongDoubleComplex);
+                            return Action::Skip;
+                        }
+                        break;
                     case BasicTypeKind::LongDouble:
                         curBasicTy->resetBasicTypeKind(BasicTypeKind::LongDoubleComplex);
                         return Action::Skip;
